@@ -109,6 +109,14 @@ def r6_3(ctx):
             if s.exit is not None and s.exit[0] in ("break", "return"):
                 ctx.violation(con + ":stops-after-first-worker", s.ev["task<-worker"].loc,
                               "the worker loop of a task that needs no facility stops after the first allocation: further eligible free workers stay idle")
+            # no alternative of that candidate loop may leave it early: a candidate that is rejected (solo flag, fixed IDs ...)
+            # says nothing about the candidates after it
+            wl = s.loops[-1]
+            for tr, ex in wl.alts:
+                if ex is not None and ex[0] in ("break", "return") and not any(isinstance(e, Mut) and e.attr == "allocated_worker_list" for e in tr):
+                    ctx.violation(con + ":candidate-loop-early-exit", wl.loc,
+                                  f"the loop over eligible free workers can be left by `{ex[0]}` on a path that allocates nobody: later candidates are never looked at and stay FREE "
+                                  f"although the task would accept them")
         else:
             # the facility loop must go on to the next facility
             if len(s.loops) < 3:
@@ -116,9 +124,12 @@ def r6_3(ctx):
                 continue
             floop = s.loops[-2]
             for tr, ex in floop.alts:
-                has_site = any(e is s.loops[-1] for e in tr)
-                if has_site and ex is not None and ex[0] in ("break", "return"):
-                    ctx.violation(con + ":stops-after-first-facility", floop.loc, "the facility loop stops after the first worker/facility pair: other free facilities of the workplace stay idle")
+                if ex is not None and ex[0] in ("break", "return"):
+                    ctx.violation(con + ":stops-after-first-facility", floop.loc, "the facility loop can be left early: other free facilities of the workplace stay idle")
+            wl = s.loops[-1]
+            for tr, ex in wl.alts:
+                if ex is not None and ex[0] in ("break", "return") and not any(isinstance(e, Mut) and e.attr == "allocated_worker_list" for e in tr):
+                    ctx.violation(con + ":candidate-loop-early-exit", wl.loc, f"the loop over candidate workers of a facility can be left by `{ex[0]}` without allocating anybody")
     tl = [e for tr0, _ex0 in _I.all_traces for e in tr0 if isinstance(e, Loop) and e.elem_cls == TASK]
     for lp in tl:
         for tr, ex in lp.alts:
